@@ -298,7 +298,7 @@ def candidates(world, viol):
     clk = world.get("clock", {})
     if clk.get("steps") or clk.get("tail"):
         w = copy.deepcopy(world)
-        w["clock"] = {"t0": 1000.0, "steps": [], "tail": 0.0}
+        w["clock"] = {"steps": [], "tail": 0.0}
         yield "const-clock", w
     p = world.get("problem")
     if p is None:
